@@ -595,7 +595,7 @@ class Engine:
         s.unwind(st)
 
     def fork_ptr(s, st, fr, I, p):
-        vals = s.concretize(st, p, 'pointer')
+        vals = s.concretize(st, p, 'pointer', limit=256)
         if not vals: raise PathAbort()
         forks = []
         for x in vals[1:]:
